@@ -68,7 +68,20 @@ impl Monitor for C07 {
         if fanout { obs.hit("fan-out"); }
         let mut vs: Vec<Violation> = Vec::new();
         let rows = unlimited.len();
-        for n in 0..=(rows as u64 + 1) {
+        // every n up to rows + 1; for results of more than 150 rows (big inputs, fan-out of a join) the first and last ones, forty
+        // evenly spaced ones and the ones around thirty line boundaries (the work is quadratic in the number of rows otherwise)
+        let ns: Vec<u64> = if rows <= 150 { (0..=(rows as u64 + 1)).collect() } else {
+            let mut v: Vec<u64> = (0..=8u64).chain((rows as u64 - 3)..=(rows as u64 + 1)).collect();
+            let step = (rows / 40).max(1) as u64;
+            v.extend((1..40).map(|k| k * step));
+            let mut r = Rng::new(base.tag | 1);
+            if !cumulative.is_empty() { for _ in 0..30 { let c = cumulative[r.below(cumulative.len())] as u64; v.extend([c.saturating_sub(1), c, c + 1]); } }
+            v.retain(|n| *n <= rows as u64 + 1);
+            v.sort(); v.dedup();
+            obs.hit("limits:sampled");
+            v
+        };
+        for n in ns {
             obs.evals += 1;
             let out = match run(Some(n), "l") { Ok(o) => o, Err(e) => { vs.push(Violation::new(format!("limit|{}|statement-rejected", shape), e)); break; } };
             let nclass = if n == 0 { "n=0" } else if (n as usize) < rows { "0<n<rows" } else { "n>=rows" };
